@@ -23,40 +23,57 @@ def cyclomatic(g):
     return g.number_of_edges() - g.number_of_nodes() + nx.number_connected_components(g)
 
 
-def theta_bridges(block):
-    """block: a 2-connected graph.  If it is a theta graph (exactly two branch atoms of degree 3 joined by three internally
-    disjoint bridges, every other atom of degree 2) return the sorted bond counts of the three bridges, else None."""
-    deg = dict(block.degree())
-    branch = [v for v, d in deg.items() if d == 3]
-    if len(branch) != 2 or any(d not in (2, 3) for d in deg.values()):
-        return None
-    if block.number_of_edges() - block.number_of_nodes() + 1 != 2:
-        return None
-    a, b = branch
-    lens = []
-    for s in block[a]:
-        n, prev, cur = 1, a, s
-        while cur != b:
-            if cur == a or deg[cur] != 2:
-                return None
-            nxt = [x for x in block[cur] if x != prev]
-            if len(nxt) != 1:
-                return None
-            prev, cur = cur, nxt[0]
-            n += 1
-        lens.append(n)
-    return sorted(lens) if len(lens) == 3 else None
+def _theta3(block, u, v):
+    """exact: are u and v joined by three internally vertex-disjoint paths that all have >= 3 bonds?
+    A path has >= 3 bonds iff it is neither the bond u-v nor u-x-v through a common neighbour x.  In a valid triple a common
+    neighbour x lies on at most one path and that path uses at most one of the bonds u-x, x-v; so for some choice of one bond to
+    delete per common neighbour (<= 2^4 choices) the triple survives in the reduced graph; conversely in a reduced graph u and v
+    are non-adjacent without common neighbours, every u-v path has >= 3 bonds, and by Menger three internally disjoint paths exist
+    iff the local node connectivity is >= 3."""
+    import itertools
+    from networkx.algorithms.connectivity import local_node_connectivity
+    common = sorted(set(block[u]) & set(block[v]))
+    base = nx.Graph(block.edges)
+    if base.has_edge(u, v):
+        base.remove_edge(u, v)
+    for choice in itertools.product((u, v), repeat=len(common)):
+        h = base.copy()
+        for x, end in zip(common, choice):
+            h.remove_edge(x, end)
+        if h.degree(u) >= 3 and h.degree(v) >= 3 and local_node_connectivity(h, u, v, cutoff=3) >= 3:
+            return True
+    return False
 
 
 def gap_a(g0):
-    """recorded gap A: a bicyclic (theta-graph) core - a 2-connected block made of two branch atoms joined by three internally
-    disjoint bridges - whose three bridges ALL have >= 3 bonds.  Returns the bridge lengths of the first such block or None."""
+    """recorded gap A (reading fixed by the coordinator): the graph without coordinate bonds contains a bicyclic (theta) core whose
+    three bridges all have >= 3 bonds, i.e. two atoms joined by three internally vertex-disjoint paths with >= 3 bonds each.
+    Returns the pair of branch atoms of the first such core, or None.  Exact (see _theta3)."""
+    import itertools
     for comp in nx.biconnected_components(g0):
         if len(comp) < 8:    # 2 branch atoms + 3 bridges with >= 2 inner atoms each
             continue
-        lens = theta_bridges(g0.subgraph(comp))
-        if lens is not None and lens[0] >= 3:
-            return lens
+        b = g0.subgraph(comp)
+        if b.number_of_edges() - len(comp) + 1 < 2:
+            continue
+        br = sorted(x for x in b if b.degree(x) >= 3)
+        for u, v in itertools.combinations(br, 2):
+            if _theta3(b, u, v):
+                return u, v
+    return None
+
+
+def gap_a_bruteforce(g0, cutoff=None):
+    """the same predicate by plain enumeration of simple paths (used to cross-check gap_a on small graphs)"""
+    import itertools
+    core = nx.k_core(g0, 2)
+    for u, v in itertools.combinations(sorted(x for x in core if core.degree(x) >= 3), 2):
+        if not nx.has_path(core, u, v):
+            continue
+        inner = [frozenset(p[1:-1]) for p in nx.all_simple_paths(core, u, v, cutoff=cutoff) if len(p) >= 4]
+        for a, b, c in itertools.combinations(inner, 3):
+            if not (a & b or a & c or b & c):
+                return u, v
     return None
 
 
@@ -73,7 +90,7 @@ def gap_b(g0):
 def gap(g0):
     a = gap_a(g0)
     if a is not None:
-        return 'A:theta-bridges=' + '/'.join(map(str, a))
+        return 'A:theta-core=%s/%s' % a
     b = gap_b(g0)
     if b is not None:
         return 'B:dense-cage=%d-atoms/%d-bonds' % b
